@@ -188,6 +188,16 @@ pub mod park {
     static CONTROLLER: RwLock<Option<Arc<dyn Controller>>> = RwLock::new(None);
     thread_local! {
         static ACTOR: Cell<Option<u32>> = const { Cell::new(None) };
+        static FOREIGN_PID: Cell<Option<u32>> = const { Cell::new(None) };
+    }
+    /// Make this thread behave like a thread of ANOTHER process with the given
+    /// pid: it does not share this process's in-process locks and stages its
+    /// sidecar builds under that pid.
+    pub fn set_foreign_pid(pid: Option<u32>) {
+        FOREIGN_PID.with(|x| x.set(pid));
+    }
+    pub fn foreign_pid() -> Option<u32> {
+        FOREIGN_PID.with(|x| x.get())
     }
     pub fn attach(c: Option<Arc<dyn Controller>>) {
         *CONTROLLER.write() = c;
